@@ -195,7 +195,7 @@ func newWorld(dir string, roles []int, init int64) *world {
 		// the retry delay must be long enough that the retry timer cannot be due when the select of
 		// the retry loop is reached with an already elapsed deadline (both ready = random choice);
 		// runs in which that still happens are detected (timerRace) and discarded
-		p.tx.UpdateWaitTimeout(30, 100*time.Microsecond)
+		p.tx.UpdateWaitTimeout(30, 500*time.Microsecond)
 		go w.body(p)
 	}
 	return w
@@ -526,6 +526,30 @@ func (x *c09Exec) close() *c09Run {
 	return x.run
 }
 
+// c09Replay executes a fixed schedule again; reports whether the timer race showed up again
+func c09Replay(dir string, run *c09Run) (*c09Run, bool) {
+	x := c09Start(dir, run.Roles, run.Init, run.Kind)
+	for _, ev := range run.Events {
+		if !x.do(ev) {
+			break
+		}
+	}
+	r := x.close()
+	return r, x.w.timerRace
+}
+
+// a run in which a process with an elapsed timeout went on retrying: a rare race between deadline
+// and retry timer in Go's select -- or what the code always does on this schedule.  Executing the
+// same schedule again tells: true = it happened every time (the run is kept and the model judges it)
+func c09Systematic(dir string, run *c09Run) bool {
+	for k := 0; k < 3; k++ {
+		if _, race := c09Replay(dir, run); !race {
+			return false
+		}
+	}
+	return true
+}
+
 // ---- exploration of the joint state graph -------------------------------------------------------
 // Nodes are observed joint states, edges the enabled events.  Every run is a walk that prefers
 // events never taken from the state it is in, is steered to the nearest state that still has such
@@ -537,12 +561,13 @@ type c09Node struct {
 }
 
 type c09Graph struct {
-	nodes     map[string]*c09Node
-	init      string
-	nondet    int
-	discarded int
-	aborted   int
-	outOfTime bool
+	nodes      map[string]*c09Node
+	init       string
+	nondet     int
+	discarded  int
+	aborted    int
+	systematic int
+	outOfTime  bool
 	// the last run thrown away because a process with an elapsed timeout went on retrying
 	lastDiscarded *c09Run
 }
@@ -658,6 +683,16 @@ func c09Explore(dir string, roles []int, init int64, withExpire bool, maxRuns in
 		x.complete(60)
 		run := x.close()
 		if x.w.timerRace {
+			if c09Systematic(dir, run) {
+				// not a timer race: this is what the code does on this schedule; the model judges it
+				g.systematic++
+				g.lastDiscarded = run
+				emit(run)
+				if g.systematic >= 3 {
+					break
+				}
+				continue
+			}
 			// discard: the outcome of this run depended on a timer, not on the schedule
 			for _, e := range newEdges {
 				delete(e.n.next, e.ev)
@@ -666,10 +701,6 @@ func c09Explore(dir string, roles []int, init int64, withExpire bool, maxRuns in
 				delete(g.nodes, k)
 			}
 			g.discarded++
-			g.lastDiscarded = run
-			if g.discarded > 12 && g.discarded*4 > runs {
-				break // not a rare timer race: elapsed timeouts are systematically not honoured
-			}
 			continue
 		}
 		emit(run)
@@ -715,7 +746,7 @@ func c09Random(r *rand.Rand, dir string, roles []int, init int64, pExpire float6
 		}
 		x.complete(40)
 		run := x.close()
-		if !x.w.timerRace {
+		if !x.w.timerRace || c09Systematic(dir, run) {
 			emit(run)
 			return
 		}
@@ -1035,9 +1066,9 @@ func runC09(seed int64, tier string, out string) {
 		taken, total := g.edges()
 		meta.Notes = append(meta.Notes, fmt.Sprintf("%s: %d joint states, %d/%d enabled events executed, %d steering surprises, %d runs discarded (retry timer won against an elapsed deadline)", name, len(g.nodes), taken, total, g.nondet, g.discarded))
 		meta.Distribution["states:"+name] = len(g.nodes)
-		if g.discarded > 12 && g.lastDiscarded != nil {
+		if g.systematic > 0 && g.lastDiscarded != nil {
 			meta.Direct = append(meta.Direct, DirectViolation{Key: "timeout-not-honoured",
-				What: fmt.Sprintf("configuration %s: in %d runs a process whose wait timeout had elapsed while it was in the retry wait went on retrying instead of failing with the lock timeout (far more often than the select race between deadline and retry timer explains)", name, g.discarded),
+				What: fmt.Sprintf("configuration %s: a process whose wait timeout had elapsed while it was in the retry wait went on retrying instead of failing with the lock timeout -- reproducibly (3 of 3 re-executions of the same schedule), so not the select race between deadline and retry timer", name),
 				Case: showRun(g.lastDiscarded, atomic)})
 		} else if g.aborted > 0 {
 			meta.Notes = append(meta.Notes, fmt.Sprintf("%s: exploration stopped after %d runs in which a process did not reach its next yield point", name, g.aborted))
